@@ -543,3 +543,44 @@ func CellStores(al *ssa.Alloc) []ssa.Value {
 	}
 	return out
 }
+
+// Delegate follows pure forwarding: while fn's whole body is `return g(params...)` with g a function of the same package that
+// receives fn's parameters unchanged and in order, g stands for fn. It returns the function that holds the real body.
+func Delegate(fn *ssa.Function) *ssa.Function {
+	for depth := 0; fn != nil && depth < 4; depth++ {
+		if len(fn.Blocks) != 1 {
+			return fn
+		}
+		var call *ssa.Call
+		var ret *ssa.Return
+		extra := false
+		for _, in := range fn.Blocks[0].Instrs {
+			switch x := in.(type) {
+			case *ssa.Call:
+				if call != nil {
+					extra = true
+				}
+				call = x
+			case *ssa.Return:
+				ret = x
+			case *ssa.DebugRef:
+			default:
+				extra = true
+			}
+		}
+		if extra || call == nil || ret == nil || len(ret.Results) != 1 || ret.Results[0] != ssa.Value(call) {
+			return fn
+		}
+		g := StaticCallee(&call.Call)
+		if g == nil || g.Pkg != fn.Pkg || len(g.Blocks) == 0 || len(call.Call.Args) != len(fn.Params) || len(g.Params) != len(fn.Params) {
+			return fn
+		}
+		for i, a := range call.Call.Args {
+			if a != ssa.Value(fn.Params[i]) {
+				return fn
+			}
+		}
+		fn = g
+	}
+	return fn
+}
